@@ -403,6 +403,12 @@ type Clause struct {
 	Props []string
 }
 
+type CallAssert struct {
+	Callee  string
+	Ordinal int
+	Clause  Clause
+}
+
 type LoopContract struct {
 	Ordinal    int
 	Invariants []Clause
@@ -462,6 +468,7 @@ type FuncContract struct {
 	Opts       map[string]string
 	Applies    []Expr // lemma applications assumed at entry (instantiated at explicit arguments)
 	// clauses about the state right after each Lock() of the function
+	CallAsserts  []CallAssert
 	StoreAsserts    map[string][]Clause // field name -> assertions checked right after every store to that field
 	Hints           []Expr              // integer terms offered as instantiation offsets for quantified hypotheses
 	UnlockAsserts   []Clause            // proved at every Unlock() of the function (atlock() = state at the matching Lock())
@@ -508,7 +515,7 @@ func (db *ContractDB) allowPanic(fn string) bool {
 }
 
 var clauseKeywords = map[string]bool{
-	"writers": true, "callers": true, "hint": true, "ghostsum": true, "assert_at_unlock": true, "assert_after_store": true, "assume_after_lock": true, "apply_after_lock": true, "opaque": true, "apply": true, "reveal": true, "guard": true, "lock": true, "lockorder": true, "pure": true, "lemma": true, "func": true, "props": true, "safety": true,
+	"assert_before_call": true, "writers": true, "callers": true, "hint": true, "ghostsum": true, "assert_at_unlock": true, "assert_after_store": true, "assume_after_lock": true, "apply_after_lock": true, "opaque": true, "apply": true, "reveal": true, "guard": true, "lock": true, "lockorder": true, "pure": true, "lemma": true, "func": true, "props": true, "safety": true,
 	"requires": true, "ensures": true, "let": true, "assigns": true, "loop": true, "invariant": true, "backedge": true,
 	"decreases": true, "allow_panic": true, "modular": true, "init_context": true, "entry": true, "option": true, "uses": true, "end": true,
 }
@@ -798,6 +805,22 @@ func (db *ContractDB) addClauses(pkg string, clauses []string, path string) erro
 					cl.Props = append(append([]string{}, cl.Props...), "site=lock:"+lockSel)
 				}
 				cur.UnlockAsserts = append(cur.UnlockAsserts, cl)
+			case "assert_before_call":
+				// assert_before_call[Cxx] CALLEE-SUBSTRING#k expr   (k-th matching call in source order; #k optional = every match)
+				f := strings.SplitN(rest, " ", 2)
+				if len(f) != 2 {
+					return fmt.Errorf("bad assert_before_call %q", cl)
+				}
+				sel, ord := f[0], 0
+				if i := strings.LastIndex(sel, "#"); i > 0 {
+					fmt.Sscanf(sel[i+1:], "%d", &ord)
+					sel = sel[:i]
+				}
+				e, err := mustParse(strings.TrimSpace(f[1]))
+				if err != nil {
+					return err
+				}
+				cur.CallAsserts = append(cur.CallAsserts, CallAssert{Callee: sel, Ordinal: ord, Clause: Clause{Expr: e, Text: strings.TrimSpace(f[1]), Props: props}})
 			case "assert_after_store":
 				// assert_after_store[Cxx] field expr
 				f := strings.SplitN(rest, " ", 2)
